@@ -278,6 +278,24 @@ Proof.
     apply (IH (sep_concat c (y :: l))); (split; [discriminate|]); split; auto.
 Qed.
 
+(** strings.Cut, characterised: the first piece is free of the separator; either the text is the first
+    piece, the separator and the rest, or there is no separator and the rest is empty *)
+Lemma cut_at_spec c s :
+  free_of c (fst (cut_at c s)) /\
+  (s = (fst (cut_at c s) ++ String c (snd (cut_at c s)))%string \/
+   (free_of c s /\ fst (cut_at c s) = s /\ snd (cut_at c s) = "")).
+Proof.
+  induction s as [|a s (Hf & IH)]; simpl.
+  - split; [intros []|]. right. split; [intros []|]. auto.
+  - destruct (Ascii.eqb a c) eqn:E.
+    + apply Ascii.eqb_eq in E. subst. simpl. split; [intros []|]. left. reflexivity.
+    + destruct (cut_at c s) as [x y] eqn:Ec. simpl in *.
+      assert (Ha : a <> c) by (intro; subst; rewrite Ascii.eqb_refl in E; discriminate).
+      split; [intros [H|H]; [exact (Ha H)|exact (Hf H)]|].
+      destruct IH as [IH|(Hs & Hx & Hy)]; [left; congruence|].
+      right. split; [intros [H|H]; [exact (Ha H)|exact (Hs H)]|]. split; congruence.
+Qed.
+
 Definition all_space (s : string) : Prop := Forall (fun a => is_space a = true) (list_ascii_of_string s).
 
 Definition starts_nonspace (t : string) : Prop := forall a t', t = String a t' -> is_space a = false.
